@@ -66,6 +66,10 @@ const (
 	OnRollback  = "onrollback"
 	// ReadOp is a Read / ReadShelf call; numbered only after NumberReads(true).
 	ReadOp = "read"
+	// Get and Iterate are the reads made INSIDE a write transaction (Get; Iterate / Range / Empty on a shelf of the
+	// transaction); numbered only after NumberTxReads(true).
+	Get     = "get"
+	Iterate = "iterate"
 )
 
 // Mode of a planned fault.
@@ -110,6 +114,8 @@ func (s Step) Label() string {
 		if s.Shelf != "" {
 			return s.Kind + " " + s.Shelf
 		}
+	case Get, Iterate:
+		return s.Kind + " " + s.Shelf
 	}
 	return s.Kind
 }
@@ -157,6 +163,8 @@ type KV struct {
 	virtual bool
 	vlock   vsync.RWMutex
 	reads   bool
+	txReads bool
+	when    func(Step) bool
 
 	// Hook, when set, is called before every numbered step takes effect (after numbering, before a planned
 	// fault is applied), on the goroutine that performs the step. Set it before use; not synchronised.
@@ -204,6 +212,7 @@ func (k *KV) KeepTrace(on bool) { k.mu.Lock(); k.keep = on; k.mu.Unlock() }
 func (k *KV) Arm(p Plan) {
 	k.mu.Lock()
 	k.plan, k.steps, k.txs, k.trace, k.fired, k.firedAt = p, 0, 0, nil, false, Step{}
+	k.when = nil
 	k.owner = goid()
 	k.mu.Unlock()
 }
@@ -279,7 +288,7 @@ func (k *KV) step(kind, shelf string, tx, idx int) (verdict, Step) {
 		k.trace = append(k.trace, s)
 	}
 	v := proceed
-	if k.plan.Mode != None && !k.fired && k.plan.At == s.N {
+	if k.plan.Mode != None && !k.fired && (k.plan.At == s.N || k.when != nil && k.when(s)) {
 		switch k.plan.Mode {
 		case Error:
 			if Applicable(kind, Error) {
@@ -491,8 +500,13 @@ type wtx struct {
 	inner stoabs.WriteTx
 }
 
-func (t *wtx) GetShelfReader(shelfName string) stoabs.Reader { return t.inner.GetShelfReader(shelfName) }
-func (t *wtx) Store() stoabs.KVStore                         { return t.st.kv }
+func (t *wtx) GetShelfReader(shelfName string) stoabs.Reader {
+	if t.st.kv.numbersTxReads() {
+		return &txReader{Reader: t.inner.GetShelfReader(shelfName), st: t.st, shelf: shelfName}
+	}
+	return t.inner.GetShelfReader(shelfName)
+}
+func (t *wtx) Store() stoabs.KVStore { return t.st.kv }
 func (t *wtx) Unwrap() interface{}                           { return t.inner.Unwrap() }
 func (t *wtx) GetShelfWriter(shelfName string) stoabs.Writer {
 	if t.st.poisoned {
@@ -527,4 +541,106 @@ func (w *writer) Put(key stoabs.Key, value []byte) error {
 
 func (w *writer) Delete(key stoabs.Key) error {
 	return w.mutate(Delete, func() error { return w.Writer.Delete(key) })
+}
+
+// ---------------------------------------------------------------------------------------------- additions
+//
+// NumberTxReads makes the reads that the application makes INSIDE a write transaction numbered steps too: Get ->
+// "get <shelf>", Iterate / Range / Empty -> "iterate <shelf>" (through a shelf writer as well as through a shelf reader of the
+// transaction). An Error fault makes that call return a database error (what the caller does with it is the caller's
+// business); a Stop fault poisons the transaction like a stop before a Put. Off by default: the numbering of harnesses that
+// do not ask for it is unchanged.
+func (k *KV) NumberTxReads(on bool) { k.mu.Lock(); k.txReads = on; k.mu.Unlock() }
+
+func (k *KV) numbersTxReads() bool { k.mu.Lock(); defer k.mu.Unlock(); return k.txReads }
+
+// ArmWhen is Arm with a predicate instead of a step number: the fault fires at the FIRST step for which pred is true (steps
+// are numbered as usual). For phases whose global numbering is not deterministic (free-running retry loops) but in which
+// "the n-th read of shelf X" is well defined; pred is called under the wrapper's lock and must not call into the KV.
+func (k *KV) ArmWhen(m Mode, pred func(Step) bool) {
+	k.Arm(Plan{Mode: m, At: -1})
+	k.mu.Lock()
+	k.when = pred
+	k.mu.Unlock()
+}
+
+// txRead numbers one read inside a write transaction; a non-nil error ends the call.
+func txRead(st *txState, kind, shelf string) error {
+	if !st.kv.numbersTxReads() {
+		return nil
+	}
+	if st.poisoned {
+		return stoabs.DatabaseError(errPoison)
+	}
+	switch v, s := st.kv.step(kind, shelf, st.seq, 0); v {
+	case failStep:
+		return injected(s)
+	case stopHere, alreadyDead:
+		st.poisoned = true
+		return stoabs.DatabaseError(errPoison)
+	}
+	return nil
+}
+
+// txReader wraps a shelf reader of a write transaction (only used with NumberTxReads).
+type txReader struct {
+	stoabs.Reader
+	st    *txState
+	shelf string
+}
+
+func (r *txReader) Get(key stoabs.Key) ([]byte, error) {
+	if err := txRead(r.st, Get, r.shelf); err != nil {
+		return nil, err
+	}
+	return r.Reader.Get(key)
+}
+
+func (r *txReader) Empty() (bool, error) {
+	if err := txRead(r.st, Iterate, r.shelf); err != nil {
+		return false, err
+	}
+	return r.Reader.Empty()
+}
+
+func (r *txReader) Iterate(callback stoabs.CallerFn, keyType stoabs.Key) error {
+	if err := txRead(r.st, Iterate, r.shelf); err != nil {
+		return err
+	}
+	return r.Reader.Iterate(callback, keyType)
+}
+
+func (r *txReader) Range(from stoabs.Key, to stoabs.Key, callback stoabs.CallerFn, stopAtNil bool) error {
+	if err := txRead(r.st, Iterate, r.shelf); err != nil {
+		return err
+	}
+	return r.Reader.Range(from, to, callback, stopAtNil)
+}
+
+func (w *writer) Get(key stoabs.Key) ([]byte, error) {
+	if err := txRead(w.st, Get, w.shelf); err != nil {
+		return nil, err
+	}
+	return w.Writer.Get(key)
+}
+
+func (w *writer) Empty() (bool, error) {
+	if err := txRead(w.st, Iterate, w.shelf); err != nil {
+		return false, err
+	}
+	return w.Writer.Empty()
+}
+
+func (w *writer) Iterate(callback stoabs.CallerFn, keyType stoabs.Key) error {
+	if err := txRead(w.st, Iterate, w.shelf); err != nil {
+		return err
+	}
+	return w.Writer.Iterate(callback, keyType)
+}
+
+func (w *writer) Range(from stoabs.Key, to stoabs.Key, callback stoabs.CallerFn, stopAtNil bool) error {
+	if err := txRead(w.st, Iterate, w.shelf); err != nil {
+		return err
+	}
+	return w.Writer.Range(from, to, callback, stopAtNil)
 }
